@@ -181,10 +181,22 @@ def run(check, an: Analysis):
             if is_call_to(event, '_run_coroutine'):
                 n += 1
                 # the popped activation was tested true with nothing in between
-                test = rules.tests_before(
-                    path, index, lambda e: e.get('key') == ('truth', 'activation'),
-                    kill=lambda e: e.kind == 'store' and e['path'] == 'activation')
-                ok = test is not None and test['value'] is True
+                subject = None
+                if isinstance(event.node, ast.Call) and event.node.args:
+                    first = rules.value_expr(path, index, event.node.args[0])
+                    root = first.value if isinstance(first, ast.Attribute) else first
+                    subject = rules.normalise_state_aliases(ast.unparse(root))
+                ok = False
+                for pos in range(index - 1, -1, -1):
+                    before = path.events[pos]
+                    if before.kind == 'store' and before.get('local') and \
+                            rules.value_text(path, pos + 1, before.node) == subject and \
+                            before.get('value') is not None:
+                        break
+                    if before.kind == 'test' and subject is not None and \
+                            rules.value_text(path, pos, before.node) == subject:
+                        ok = before['value'] is True
+                        break
                 if not ok:
                     check.instance('D', '_run_events:skips-revoked', False, event.where,
                                    'an activation is run without testing whether its '
@@ -293,18 +305,21 @@ def _check_signal_lifecycles(check, an: Analysis, wrapper):
                        and ast.unparse(e.node.func) == 'self._cancellations.append']
                 if sched:
                     ok_reg &= bool(reg) and reg[0] < sched[0]
-            revoked = True
+            revoked, body_ok = True, True
             for path in an.paths(wrapper):
                 if path.normal and not any(tested(e, ('isnone', 'self._result'), False)
                                            for e in path.events[:3]):
-                    loops = [e for e in path.events if e.kind == 'iter-end'
-                             and '_cancellations' in ast.unparse(e.node.iter)]
-                    revoked &= bool(loops)
-            wloops = [n for n in ast.walk(wrapper.fn.node) if isinstance(n, ast.For)
-                      and '_cancellations' in ast.unparse(n.iter)]
-            body_ok = len(wloops) == 1 and len(wloops[0].body) == 1 and \
-                ast.unparse(wloops[0].body[0]) == '%s.revoke()' % ast.unparse(
-                    wloops[0].target)
+                    loop = [(i, e) for i, e in enumerate(path.events)
+                            if e.kind in ('iter-next', 'iter-end') and '_cancellations' in
+                            rules.value_text(path, i, e.node.iter)]
+                    revoked &= bool(loop) and loop[-1][1].kind == 'iter-end'
+                    for (i, e), (j, _n) in zip(loop, loop[1:]):
+                        if e.kind == 'iter-next':
+                            var = ast.unparse(e.node.target)
+                            body_ok &= any(
+                                x.kind in ('call', 'enter') and isinstance(x.node, ast.Call)
+                                and ast.unparse(x.node.func) == '%s.revoke' % var
+                                for x in path.events[i:j])
             check.instance('P', construct, ok_reg and revoked and body_ok, where,
                            'registered before scheduling (%s); every terminal path of the '
                            'wrapper revokes all registered cancellations (%s, %s)' % (
